@@ -74,6 +74,7 @@ func largePolicies(path string, rng *rand.Rand, sizes []int) {
 		o.Emit(l)
 	}
 	printedPolicies(o, rng, 60)
+	rejectedPolicies(o, rng, 44)
 }
 
 // printLine: a policy with 6 to 9 leaves is parsed, used once (Satisfaction re-sorts its gates in place, and Encrypt serialises them in
@@ -84,6 +85,9 @@ type printLine struct {
 	Printed   string `json:"printed"`
 	ReparseOK bool   `json:"reparse_ok"`
 	Agree     bool   `json:"agree"`
+	EqualKept bool   `json:"equal_kept"`
+	RtEqual   bool   `json:"rt_equal"`
+	Accepted  bool   `json:"accepted"`
 	Samples   int    `json:"samples"`
 	Panics    int    `json:"panics"`
 	Note      string `json:"note"`
@@ -101,6 +105,29 @@ func randomPolicy(rng *rand.Rand, leaves int, next *int) string {
 	k := 1 + rng.Intn(leaves-1)
 	op := []string{" and ", " or "}[rng.Intn(2)]
 	return "(" + randomPolicy(rng, k, next) + op + randomPolicy(rng, leaves-k, next) + ")"
+}
+
+// rejectedPolicies: a policy of the language followed by further tokens is not a policy of the language, and the parser refuses it
+// (accepting the first complete expression would silently drop every restriction written after a stray parenthesis or a misspelt
+// operator).
+func rejectedPolicies(o *vlib.Out, rng *rand.Rand, n int) {
+	tails := []string{" )", " ) and z:1", ")) and z:1", " adn (z:1)", " z:1", " not z:1", " :", " ( z:1", " and", " or )", " z"}
+	for i := 0; i < n; i++ {
+		cnt := 0
+		l := printLine{Ev: "reject", Policy: randomPolicy(rng, 1+rng.Intn(4), &cnt) + tails[i%len(tails)]}
+		oc := vlib.Safe(120e9, func() {
+			var p tkn20.Policy
+			err := p.FromString(l.Policy)
+			l.Accepted = err == nil
+			if err == nil {
+				l.Printed = p.String()
+			}
+		})
+		if oc.Bad() {
+			l.Panics, l.Note = 1, oc.Panic
+		}
+		o.Emit(l)
+	}
 }
 
 func printedPolicies(o *vlib.Out, rng *rand.Rand, n int) {
@@ -135,6 +162,13 @@ func printedPolicies(o *vlib.Out, rng *rand.Rand, n int) {
 				return
 			}
 			l.ReparseOK, l.Agree = true, true
+			// a query does not change the policy: it still equals an unused policy parsed from the same text, and the policy
+			// parsed from its printed form equals it
+			var q tkn20.Policy
+			if err := q.FromString(l.Policy); err == nil {
+				l.EqualKept = p.Equal(&q)
+			}
+			l.RtEqual = p2.Equal(&p)
 			for k := 0; k < 60; k++ {
 				at := sample()
 				l.Samples++
